@@ -29,6 +29,7 @@ pub enum Form {
   DynTextAttr, // await import("x", { with: { type: "text" } });
   BogusAttr,  // import z from "x" with { type: "bogus" };
   SourcePhase, // import source w from "x";
+  DynSourcePhase, // await import.source("x");
 }
 
 #[derive(Clone, Debug)]
@@ -153,6 +154,7 @@ pub fn render(src: &ModSrc, is_js: bool) -> String {
         t
       )),
       Form::SourcePhase => body.push_str(&format!("import source sp{} from \"{}\";\n", i, t)),
+      Form::DynSourcePhase => body.push_str(&format!("await import.source(\"{}\");\n", t)),
       Form::TextAttr => body.push_str(&format!("import t{} from \"{}\" with {{ type: \"text\" }};\n", i, t)),
       Form::BytesAttr => body.push_str(&format!("import b{} from \"{}\" with {{ type: \"bytes\" }};\n", i, t)),
       Form::DynTextAttr => body.push_str(&format!("await import(\"{}\", {{ with: {{ type: \"text\" }} }});\n", t)),
